@@ -28,7 +28,7 @@ TrReset ==
     /\ IsEv("reset")
     /\ cph' = [s \in Streams |-> "none"] /\ flipped' = [s \in Streams |-> FALSE] /\ cstop' = [s \in Streams |-> FALSE]
     /\ cq' = [s \in Streams |-> <<>>] /\ cgot' = [s \in Streams |-> <<>>] /\ cblocked' = [s \in Streams |-> FALSE]
-    /\ cshut' = [s \in Streams |-> FALSE] /\ nsent' = [s \in Streams |-> 0] /\ creader' = "reading"
+    /\ cshut' = [s \in Streams |-> FALSE] /\ nsent' = [s \in Streams |-> 0] /\ nbad' = [s \in Streams |-> 0] /\ creader' = "reading"
     /\ c2s' = <<>> /\ s2c' = <<>> /\ cut' = FALSE
     /\ sreg' = [s \in Streams |-> FALSE] /\ sacked' = [s \in Streams |-> FALSE] /\ hst' = [s \in Streams |-> "none"]
     /\ sstop' = [s \in Streams |-> FALSE] /\ sq' = [s \in Streams |-> <<>>] /\ sgot' = [s \in Streams |-> <<>>]
@@ -70,13 +70,13 @@ TrStop ==
                 THEN SrvFrame(FALSE) /\ pendClose' = 0                           \* the close request takes effect
                 ELSE /\ steardown = "eof"                                         \* the teardown closes what is left in the table
                      /\ sstop' = [sstop EXCEPT ![E.s] = TRUE]
-                     /\ UNCHANGED <<cph, flipped, cstop, cq, cgot, cblocked, cshut, nsent, creader, c2s, s2c, cut, sreg, sacked, hst, sq, sgot, sblocked, sshut, npush, cackp, steardown>>
+                     /\ UNCHANGED <<cph, flipped, cstop, cq, cgot, cblocked, cshut, nsent, nbad, creader, c2s, s2c, cut, sreg, sacked, hst, sq, sgot, sblocked, sshut, npush, cackp, steardown>>
                      /\ pendClose' = pendClose
          ELSE /\ pendClose' = pendClose
               /\ IF cph[E.s] = "streaming" /\ creader = "reading" /\ ~cstop[E.s]
                    THEN CliClose(E.s)                                              \* Stream.Close by the user
                    ELSE /\ cstop' = [cstop EXCEPT ![E.s] = TRUE]                  \* the reader's final sweep (or a repeated stop)
-                        /\ UNCHANGED <<cph, flipped, cq, cgot, cblocked, cshut, nsent, creader, c2s, s2c, cut, sreg, sacked, hst, sstop, sq, sgot, sblocked, sshut, npush, cackp, steardown>>
+                        /\ UNCHANGED <<cph, flipped, cq, cgot, cblocked, cshut, nsent, nbad, creader, c2s, s2c, cut, sreg, sacked, hst, sstop, sq, sgot, sblocked, sshut, npush, cackp, steardown>>
     /\ Adv /\ UNCHANGED <<bad, cret, sret>>
 
 TrHandlerStart ==
@@ -109,7 +109,7 @@ TrQShut ==
     /\ IF E.k = "cli" THEN cstop[E.s] /\ CliRead(E.s)
        ELSE /\ sstop[E.s]
             /\ sshut' = [sshut EXCEPT ![E.s] = TRUE] /\ sblocked' = [sblocked EXCEPT ![E.s] = FALSE]
-            /\ UNCHANGED <<cph, flipped, cstop, cq, cgot, cblocked, cshut, nsent, creader, c2s, s2c, cut, sreg, sacked, hst, sstop, sq, sgot, npush, cackp, steardown>>
+            /\ UNCHANGED <<cph, flipped, cstop, cq, cgot, cblocked, cshut, nsent, nbad, creader, c2s, s2c, cut, sreg, sacked, hst, sstop, sq, sgot, npush, cackp, steardown>>
     /\ Adv /\ NoFlag
 \* what ReadMessage handed back to its caller: the message dequeued at the matching s.read, intact (E.sent = 1), or the shutdown
 TrCliReadRet ==
@@ -131,18 +131,19 @@ TrCliClose == IsEv("api.close") /\ UNCHANGED vars /\ Adv /\ NoFlag
 TrCloseRet == IsEv("api.close.ret") /\ UNCHANGED vars /\ Adv /\ NoFlag
 TrApiOpen == IsEv("api.open") /\ UNCHANGED vars /\ Adv /\ NoFlag
 TrCliWrite == IsEv("cli.write") /\ UNCHANGED vars /\ Adv /\ NoFlag
+TrCliWriteBad == IsEv("cli.write.bad") /\ InS(E.s) /\ CliWriteFail(E.s) /\ Adv /\ NoFlag
 TrPush == IsEv("h.push") /\ UNCHANGED vars /\ Adv /\ NoFlag
 
 TrHandlerReturn ==
     /\ IsEv("h.return") /\ InS(E.s)
     /\ hst' = [hst EXCEPT ![E.s] = "returned"]
-    /\ UNCHANGED <<cph, flipped, cstop, cq, cgot, cblocked, cshut, nsent, creader, c2s, s2c, cut, sreg, sacked, sstop, sq, sgot, sblocked, sshut, npush, cackp, steardown>>
+    /\ UNCHANGED <<cph, flipped, cstop, cq, cgot, cblocked, cshut, nsent, nbad, creader, c2s, s2c, cut, sreg, sacked, sstop, sq, sgot, sblocked, sshut, npush, cackp, steardown>>
     /\ Adv /\ NoFlag
 
 TrCut ==
     /\ (IsEv("env.cut") \/ IsEv("w.close"))
     /\ cut' = TRUE
-    /\ UNCHANGED <<cph, flipped, cstop, cq, cgot, cblocked, cshut, nsent, creader, c2s, s2c, sreg, sacked, hst, sstop, sq, sgot, sblocked, sshut, npush, cackp, steardown>>
+    /\ UNCHANGED <<cph, flipped, cstop, cq, cgot, cblocked, cshut, nsent, nbad, creader, c2s, s2c, sreg, sacked, hst, sstop, sq, sgot, sblocked, sshut, npush, cackp, steardown>>
     /\ Adv /\ NoFlag
 TrConnClose == IsEv("c.close") /\ UNCHANGED vars /\ Adv /\ NoFlag
 
@@ -162,7 +163,7 @@ TrObsEnd ==      \* E.a client reads / E.b handler reads still blocked 2 s after
 
 TrNext ==
     \/ TrReset \/ TrFrame \/ TrSrvFrame \/ TrHandlerStart \/ TrReaderFrame \/ TrEstablished \/ TrQRead \/ TrQShut \/ TrCliReadRet \/ TrSrvReadRet
-    \/ TrCliClose \/ TrCloseRet \/ TrApiOpen \/ TrCliWrite \/ TrPush \/ TrHandlerReturn \/ TrCut \/ TrConnClose
+    \/ TrCliClose \/ TrCloseRet \/ TrApiOpen \/ TrCliWrite \/ TrCliWriteBad \/ TrPush \/ TrHandlerReturn \/ TrCut \/ TrConnClose
     \/ TrCliSweep \/ TrSrvEOF \/ TrSrvDone \/ TrStop \/ TrSrvDrop \/ TrObsClosing \/ TrObsEnd
 
 TrSpec == TrInit /\ [][TrNext]_tvars
